@@ -14,8 +14,8 @@ def StopHere (p : Program) (vm : VM) (ip : Int) : Prop :=
     site while stepping -/
 theorem C06_single_stops_iff (p : Program) (hs : SitesOK p) (ht : TablesInverse p)
     (vm vm' : VM) (r : Bool) (hr : Reach p vm) (h : step vm = .ok (vm', r)) :
-    r = true ↔ StopHere p vm vm.ip := by
-  sorry
+    r = true ↔ StopHere p vm vm.ip :=
+  InvB.stops_iff ht (InvB.CodeInv.reach hs hr) (InvB.BreakInv.reach hs ht hr) h
 
 /-- `execute` returns at the *first* stop position of the uninterrupted path, having run
     exactly the path up to and including it, and leaves the debugger state untouched -/
@@ -25,28 +25,28 @@ theorem C06_execute_stops (p : Program) (hs : SitesOK p) (ht : TablesInverse p)
       coreIter p k vm.core = .ok c ∧ StopHere p vm c.ip ∧
       (∀ j, j < k → ∀ cj, coreIter p j vm.core = .ok cj → ¬ StopHere p vm cj.ip) ∧
       coreStep p c = .ok vm'.core ∧
-      vm'.code = vm.code ∧ vm'.enabled = vm.enabled ∧ vm'.stepping = vm.stepping := by
-  sorry
+      vm'.code = vm.code ∧ vm'.enabled = vm.enabled ∧ vm'.stepping = vm.stepping :=
+  InvB.execute_stops ht (InvB.CodeInv.reach hs hr) (InvB.BreakInv.reach hs ht hr) h
 
 /-- the location reported after stopping at a site is that site's file and line -/
 theorem C06_current_break (p : Program) (vm vm' : VM) (h : step vm = .ok (vm', true))
     (hn : fetch vm.code vm.ip ≠ .ok Instr.halt) :
-    vm'.currentBreak p = p.lineAt vm.ip := by
-  sorry
+    vm'.currentBreak p = p.lineAt vm.ip :=
+  InvB.current_break h hn
 
 /-- before execution starts, and after a reset, no location is reported -/
 theorem C06_initial_none (p : Program) (ht : TablesInverse p) :
-    (VM.mk' p).currentBreak p = none := by
-  sorry
+    (VM.mk' p).currentBreak p = none :=
+  InvB.initial_none ht
 
 /-- an enable/disable request succeeds exactly for available locations -/
 theorem C06_enable_iff (p : Program) (vm vm' : VM) (b : BreakPoint) (v r : Bool)
-    (h : VM.setBreakPoint p vm b v = .ok (vm', r)) : r = true ↔ b ∈ p.available := by
-  sorry
+    (h : VM.setBreakPoint p vm b v = .ok (vm', r)) : r = true ↔ b ∈ p.available :=
+  InvB.enable_iff h
 
 /-- the enabled set is the successful enables minus the disables, emptied by clear / reset -/
 theorem C06_enabled_set (p : Program) (vm vm' : VM) (c : Call) (h : CallRel p vm c vm') :
-    vm'.enabled = bookkeeping p vm.enabled c := by
-  sorry
+    vm'.enabled = bookkeeping p vm.enabled c :=
+  InvB.enabled_set h
 
 end Theo
